@@ -56,6 +56,19 @@ check("C04", "exploration",
       "runtime monitoring: panic hook + exit-status monitor + sentinel histories under stress/fuzz workloads, rel and overflow-checked builds",
       "DESIGN.md §3 C04")
 
+check("C06", "exploration",
+      "Feeds every token sequence up to length 4 (quick) / 5 (thorough) over a 33-token alphabet, "
+      "random longer sequences, character-level mutants of valid programs and hostile raw texts "
+      "to the real default parser, legacy parser and syntax-tree parser; compares accept/reject, "
+      "canonical trees (spans dropped) and the syntax-tree parser's error count. Every "
+      "disagreement is delta-debugged to a minimal core and classified by what the real lexer / "
+      "parser report about that core; 23 genuine disagreement classes are recorded as known "
+      "findings, anything else is a violation.",
+      "Exhaustive only for the stated token-sequence bound; the intended-tree oracle (generator "
+      "AST vs parser tree) is exercised through C01's generated programs.",
+      "runtime monitoring: differential oracle across three parsers over exhaustive token sequences + delta-debugging classifier",
+      "DESIGN.md §3 C06")
+
 NOT_APPLICABLE = []
 
 
